@@ -82,11 +82,17 @@ def register_forward_ref(
             #   attr1: 'forward' = Field(gt=1)
             #   attr2: 'forward' = Field(gt=2)
             # we use forward_key (attname) over forward_arg
-            forward_refs.setdefault(
-                f"${forward_key}" if forward_key else annotation.__forward_arg__,
-                # use a $ to differ from forward arg
-                (annotation, constraints),
-            )
+            key = f"${forward_key}" if forward_key else annotation.__forward_arg__
+            # use a $ to differ from forward arg
+            existing = forward_refs.get(key)
+            n = 0
+            while existing is not None and existing[0] is not annotation:
+                # the same name referenced by another annotation (b1: List['B'], b2: Dict[str, 'B']):
+                # every ForwardRef object has to be evaluated, keep them all
+                n += 1
+                key = f"{key.split('#')[0]}#{n}"
+                existing = forward_refs.get(key)
+            forward_refs.setdefault(key, (annotation, constraints))
             # still not evaluated
             return annotation
         # raise TypeError(f'{repr(forward_key)}: Unsupported ForwardRef: {annotation}')
